@@ -37,7 +37,7 @@ def run_one(seed_dir, tier, props):
     work = tempfile.mkdtemp(prefix="seedrun_")
     try:
         repo = os.path.join(work, "repo")
-        shutil.copytree("/repo", repo, ignore=shutil.ignore_patterns(".git", "__pycache__", "*.pyc", ".pytest_cache"))
+        shutil.copytree(os.environ.get("SEED_BASE_REPO", "/repo"), repo, ignore=shutil.ignore_patterns(".git", "__pycache__", "*.pyc", ".pytest_cache"))
         p = subprocess.run(["git", "apply", "--unsafe-paths", "--directory=" + repo, os.path.join(seed_dir, "patch.diff")],
                            cwd=work, stdout=subprocess.PIPE, stderr=subprocess.STDOUT, text=True)
         if p.returncode != 0:
